@@ -39,6 +39,7 @@ type c35Beh struct {
 	Stream    bool     `json:"stream"`
 	KeepHij   bool     `json:"keepHij"`
 	PoolLimit bool     `json:"poolLimit"`
+	Rmu       bool     `json:"rmu"`
 	NoPre     bool     `json:"noPre"`
 	Hist      []c35Req `json:"hist"`
 }
@@ -230,6 +231,7 @@ func TestVerifC35TempFiles(t *testing.T) {
 		hijDone := make(chan struct{}, 1)
 		s := &Server{
 			StreamRequestBody:            b.Stream,
+			ReduceMemoryUsage:            b.Rmu,
 			KeepHijackedConns:            b.KeepHij,
 			DisablePreParseMultipartForm: b.NoPre,
 			MaxRequestBodySize:           64 << 20, // uploads above the 16 MiB pre-parse threshold must be admitted
@@ -259,6 +261,15 @@ func TestVerifC35TempFiles(t *testing.T) {
 					return
 				}
 				f, err := ctx.MultipartForm()
+				if (r.Mode == "preparselimit" || r.Mode == "ondemandtwice") && err == nil {
+					// the form exists: asking again with a limit below the body size returns it
+					f2, err2 := ctx.Request.MultipartFormWithLimit(len(c35Encode(r.Form, "hb")) - 1)
+					if err2 != nil || f2 != f {
+						mu.Lock()
+						parseErrs = append(parseErrs, fmt.Sprintf("request %d: MultipartFormWithLimit after the form had been obtained: same form %v, err %v", k, f2 == f, err2))
+						mu.Unlock()
+					}
+				}
 				if r.Mode == "ondemandhijack" {
 					ctx.Hijack(func(c net.Conn) {
 						io.Copy(io.Discard, c) //nolint:errcheck // until the client goes away
@@ -308,7 +319,7 @@ func TestVerifC35TempFiles(t *testing.T) {
 			}
 			var raw bytes.Buffer
 			fmt.Fprintf(&raw, "POST /m%d HTTP/1.1\r\nHost: x\r\nContent-Type: multipart/form-data; boundary=hb\r\n", i+1)
-			if r.Mode == "preparse" || b.NoPre {
+			if r.Mode == "preparse" || r.Mode == "preparselimit" || b.NoPre {
 				// (with DisablePreParseMultipartForm a fixed-length body is parsed on demand too)
 				fmt.Fprintf(&raw, "Content-Length: %d\r\n\r\n", declared)
 				raw.Write(body)
@@ -379,6 +390,9 @@ func TestVerifC35TempFiles(t *testing.T) {
 			time.Sleep(time.Millisecond)
 		}
 		desc := fmt.Sprintf("stream=%v keepHij=%v poolLimit=%v noPre=%v", b.Stream, b.KeepHij, b.PoolLimit, b.NoPre)
+		if b.Rmu {
+			desc += " rmu=true"
+		}
 		for _, r := range b.Hist {
 			big := 0
 			for _, fl := range r.Form.Files {
@@ -403,7 +417,7 @@ func TestVerifC35TempFiles(t *testing.T) {
 		default:
 			for i, ls := range atStart {
 				own := 0 // a pre-parsed request's own spooled files legitimately exist already
-				if i < len(b.Hist) && b.Hist[i].Mode == "preparse" && b.Hist[i].Broken == "no" {
+				if i < len(b.Hist) && (b.Hist[i].Mode == "preparse" || b.Hist[i].Mode == "preparselimit") && b.Hist[i].Broken == "no" {
 					for _, fl := range b.Hist[i].Form.Files {
 						if fl[2] == "huge" {
 							own++
